@@ -11,7 +11,7 @@ package reconciler
 
 //@ func (*IngressReconciler).Reconcile
 //@   props C12
-//@   requires unlocked: r.Services != nil && !held(r.Services.modelMutex)
+//@   requires unlocked: r.Services != nil && !held(r.Services.modelMutex) && r.watchers != nil && r.watchers.ch != nil && !held(r.watchers.mu)
 //@   ensures once:    calls(ReconcileIng) == 1
 //@   ensures requeue: last(ReconcileIng) != nil ==> result.0.RequeueAfter == r.Config.ReloadRetry
 //@   ensures noerr:   result.1 == nil
@@ -28,6 +28,7 @@ package reconciler
 //@ func (*watchers).getChangedObjects
 //@   props C14
 //@   requires state: w.ch != nil && !held(w.mu)
+//@   modifies w.*
 //@   ensures copy:    *result == old(*w.ch)
 //@   ensures swapped: w.ch != nil && fresh(w.ch) && fresh(result) && w.ch != result
 //@   ensures empty:   len(w.ch.Links) == 0 && len(w.ch.Objects) == 0 && !w.ch.NeedFullSync && len(w.ch.IngressesAdd) == 0 && len(w.ch.IngressesUpd) == 0 && len(w.ch.IngressesDel) == 0
